@@ -17,20 +17,32 @@ Shapes == <<
   << <<"function", "extension">>, <<"done">>, <<"initReport">> >>
 >>
 Ups == {"ok", "slow", "fail1", "drop1", "failall"}
-Inv(p, s, u, l) == [pts |-> p, shape |-> Shapes[s], up |-> u, late |-> l]
+Inv(p, s, u, l) == [pts |-> p, shape |-> Shapes[s], up |-> u, late |-> l, big |-> 0]
+\* big: a very large ingestion request is under way when the runtime-done signal arrives (started big % of its own duration earlier): a
+\* dispatch holds one of the consolidator's maps -- with what was accepted into it before -- at the moment of the flush
+InvB(p, s, u, l, b) == [pts |-> p, shape |-> Shapes[s], up |-> u, late |-> l, big |-> b]
 Invs == {Inv(p, s, u, l) : p \in 0..2, s \in 1..Len(Shapes), u \in Ups, l \in 0..1}
 Init == invs = <<>>
 Next == Len(invs) < MaxInv /\ \E i \in {RandomElement(Invs)} : invs' = Append(invs, i)
 Spec == Init /\ [][Next]_invs
-Case(f, is) == [fault |-> f, invs |-> is, init |-> 0]
+Case(f, is) == [fault |-> f, invs |-> is, init |-> 0, slowstart |-> 0, slowsub |-> 0, slots |-> 0]
+\* slowstart: the server's own start-up begins that many ms after the extension was started (a cold start on a throttled sandbox; the manager
+\* gives start-up 100 ms before its heartbeat begins);  slowsub: the runtime takes that long to answer the telemetry subscription
+CaseS(f, is, st, su) == [fault |-> f, invs |-> is, init |-> 0, slowstart |-> st, slowsub |-> su, slots |-> 0]
 \* init: datapoints accepted during the init phase, before the extension's first request for an invocation
-CaseI(n, is) == [fault |-> "none", invs |-> is, init |-> n]
+CaseI(n, is) == [fault |-> "none", invs |-> is, init |-> n, slowstart |-> 0, slowsub |-> 0, slots |-> 0]
 Core == {
   Case("badmode", <<>>), Case("noendpoint", <<>>), Case("badcompression", <<>>),
   \* failures no configuration of the real server produces, from a stand-in server behind the same manager: an ordinary error, errors
   \* whose chain holds a context error although the extension's own context is alive, and a server that just returns
   Case("plainerr", <<>>), Case("deadline", <<>>), Case("canceled", <<>>), Case("earlynil", <<>>),
   Case("none", <<>>),
+  \* the server comes up after the manager's start-up window: the initial flush meets a coordinator nobody has registered on yet
+  CaseS("none", <<Inv(1, 1, "ok", 0)>>, 300, 0), CaseS("none", <<Inv(2, 2, "fail1", 0), Inv(1, 1, "ok", 0)>>, 400, 0), CaseS("none", <<>>, 300, 150),
+  \* start-up failures while the runtime is slow to answer the telemetry subscription
+  CaseS("badmode", <<>>, 0, 150), CaseS("noendpoint", <<>>, 0, 250), CaseS("plainerr", <<>>, 0, 150), CaseS("deadline", <<>>, 0, 150), CaseS("earlynil", <<>>, 0, 250),
+  \* two consolidator slots, two datapoints accepted (one per slot), then the flush while a dispatch holds one of the slots
+  [CaseS("none", <<InvB(2, 1, "ok", 0, 50), InvB(2, 1, "ok", 0, 62), InvB(2, 1, "ok", 0, 74), InvB(2, 1, "ok", 0, 86), InvB(2, 1, "ok", 0, 95)>>, 0, 0) EXCEPT !.slots = 2],
   CaseI(2, <<>>), CaseI(1, <<Inv(1, 1, "ok", 0)>>), CaseI(2, <<Inv(0, 3, "slow", 0), Inv(1, 1, "ok", 0)>>),
   Case("none", <<Inv(2, 1, "ok", 0)>>),
   Case("none", <<Inv(1, 3, "ok", 0), Inv(1, 1, "ok", 0)>>),                  \* a look-alike record type before the real one
@@ -41,5 +53,5 @@ Core == {
   Case("none", <<Inv(0, 1, "ok", 0), Inv(0, 3, "ok", 1), Inv(2, 1, "slow", 0)>>)
 }
 ASSUME \A c \in Core : PrintT(<<"CASE", ToJson(c)>>)
-Emit == Len(invs) < MaxInv \/ PrintT(<<"CASE", ToJson(CaseI(RandomElement(0..2), invs))>>)
+Emit == Len(invs) < MaxInv \/ PrintT(<<"CASE", ToJson([CaseI(RandomElement(0..2), invs) EXCEPT !.slowstart = RandomElement({0, 0, 300}), !.slowsub = RandomElement({0, 0, 120})])>>)
 =============================================================================
